@@ -102,10 +102,25 @@ def budget(tier):
 @st.composite
 def case_strategy(draw):
     spec = draw(gen.source_spec(classes=gen.FIELD_CLASSES, max_path=1, pos_extent=2.0))
-    if draw(st.integers(0, 3)) == 0:
+    exact_mode = draw(st.integers(0, 2)) == 0
+    if exact_mode or draw(st.integers(0, 3)) == 0:
         spec["position"] = [[0.0, 0.0, 0.0]]
         spec["orientation"] = [[0.0, 0.0, 0.0, 1.0]]
     obs = draw(gen.region_observers(spec, n_min=1, n_max=4, clear=1e-3, extra_regions=("axis_exact",)))
+    if exact_mode:
+        # identity pose: observers exactly ON the prolongation of a special set (edge line beyond the vertex, r = r_i
+        # beyond the body, base plane beyond the rim, phi = phi_j plane, axis) - where the special-case branches live
+        body = geom.body_from_spec(spec)
+        avail = [r for r in ("edge_extension", "mantle_ext", "base_plane", "segment_plane", "axis_exact", "rim_radius") if r in geom.regions_for(body) + ["axis_exact"]]
+        for _ in range(draw(st.integers(1, 2))):
+            if not avail:
+                break
+            reg = draw(st.sampled_from(avail))
+            u = draw(gen.uniforms(8))
+            u[6] = 0.9  # zero transverse offset / exactly r = R
+            p = geom.observer_in_region(body, reg, u, clear=1e-3)
+            if p is not None:
+                obs.append({"region": reg + "_exact", "local": [float(x) for x in p]})
     return {"source": spec, "observers": obs, "route": draw(st.sampled_from(["oo"] * 9 + ["core"]))}
 
 
@@ -161,7 +176,9 @@ def run_case(case, ctx):
     inside = body.inside(loc) if body.kind == "magnet" else np.zeros(len(loc), dtype=bool)
     # scopes of the open findings (known_findings.json): CylinderSegment close to its axis; TriangularMesh / Tetrahedron
     # observers coplanar with two or more face planes (edge lines), where the mesh inside test is unreliable
-    raxis = (np.hypot(loc[:, 0], loc[:, 1]) / body.L) if isinstance(body, geom.CylSeg) else np.full(len(loc), np.inf)
+    # (distance to the axis relative to max(L, distance from the centre): a cone around the axis)
+    raxis = (np.hypot(loc[:, 0], loc[:, 1]) / np.maximum(body.L, np.linalg.norm(loc, axis=1))) if isinstance(body, geom.CylSeg) \
+        else np.full(len(loc), np.inf)
     from vf.props.c02 import _coplanar  # pylint: disable=import-outside-toplevel
 
     coplanar = [_coplanar(body, p) for p in loc]
